@@ -248,8 +248,10 @@ def deliver(base, mutant, use_guard=True):
                 if len(loop.transports) > 3:
                     info["followup"] = "%d datagram endpoints were opened for one request with retries=3" % len(loop.transports)
                 else:
-                    loop.reply = good
+                    honest = vagent.Agent(dict(DB))
+                    loop.reply = lambda req: honest.handle(req)
                     loop.scripts = [dict(kind="reply", d=0.1)] * 400
+                    loop.transmissions = 0
                     loop.transports.clear()
                     try:
                         r = loop.run_until_complete(client.get(vworld.OID(SC)))
